@@ -7,7 +7,12 @@
 //!                generated chunkings, writers closed in a generated permutation by explicit hand-off); decoded content and
 //!                row-group row counts must equal the serial writer's.
 //! * `grid`       exhaustive (leaf type x wrapper x version x dictionary): acceptance must equal the committed grid;
-//!                inside the grid the column round-trips, outside it the writer returns `Err` (no panic).
+//!                inside the grid the column round-trips, outside it the writer rejects the type.
+//! * `repro`      minimal reproductions of the reported findings (keys `C05-*`, see grids/parquet_arrow_writer.json
+//!                "known_defects"); judged only in replay / known-finding mode (`c.strict`), skipped otherwise.
+//!
+//! Shapes of reported findings are avoided by construction in generated runs (`c.exclude(key)`, counted in the
+//! evidence) so that the search continues behind them; replaying a file (strict mode) switches the avoidance off.
 #[path = "../pq_gen.rs"]
 mod pq_gen;
 
@@ -47,6 +52,8 @@ struct CaseData {
 fn type_cfg(depth: u32) -> TypeCfg {
     let mut cfg = TypeCfg::all();
     cfg.union = false;
+    // Parquet DECIMAL requires 0 <= scale <= precision (the schema converter rejects negative scales)
+    cfg.neg_scale = false;
     cfg.depth = depth;
     cfg
 }
@@ -115,8 +122,19 @@ fn gen_case(c: &mut Case, max_cols: usize, allow_tail: bool) -> CaseData {
         }
         true
     };
-    let fields = gen_fields(t, &cfg, ncols, &pred);
-    let excluded = excluded.into_inner();
+    let mut fields = gen_fields(t, &cfg, ncols, &pred);
+    let mut excluded = excluded.into_inner();
+    if !strict {
+        // finding C05-reader-unmasked-nulls: make the offending column nullable-free at the top (no null ancestor above
+        // the non-nullable nested node) by construction: the shape needs a nullable ancestor, so such columns are
+        // replaced by their simplest variant, a flat Int32
+        for f in fields.iter_mut() {
+            if unmasked_null_shape(f) {
+                excluded.push("C05-reader-unmasked-nulls");
+                f.ty = LType::Int { bits: 32, signed: true };
+            }
+        }
+    }
     let schema = schema_of(&fields, None);
     let vcfg = ValCfg { max_list: if big { 3 } else { 5 }, ..ValCfg::default() };
     // partition of the rows into 1..=8 write() calls
@@ -134,7 +152,7 @@ fn gen_case(c: &mut Case, max_cols: usize, allow_tail: bool) -> CaseData {
     let mut lbatches = vec![];
     let mut batches = vec![];
     let mut flush_after = vec![];
-    let huge = !big && t.chance(24);
+    let huge = !big && rare(t, 24);
     let mut huge_done = false;
     for n in sizes {
         let mut lb = gen_lbatch(t, &fields, n, &vcfg);
@@ -144,7 +162,7 @@ fn gen_case(c: &mut Case, max_cols: usize, allow_tail: bool) -> CaseData {
         let b = realise_batch(t, &schema, &fields, &lb, n, &lay);
         lbatches.push(lb);
         batches.push(b);
-        flush_after.push(t.chance(56));
+        flush_after.push(rare(t, 56));
     }
     if huge_done {
         c.class("huge_value");
@@ -175,6 +193,18 @@ fn describe_case(d: &CaseData, props: &Value, read_bs: usize) -> Value {
         "read_batch_size": read_bs,
         "first_rows": d.lbatches.iter().find(|b| b.first().map(|c| !c.is_empty()).unwrap_or(false)).map(|b| b.iter().map(|c| short_vec(c)).collect::<Vec<_>>()),
     })
+}
+
+trait ItemField {
+    fn arrow_item(&self) -> arrow_schema::Field;
+}
+impl ItemField for LType {
+    fn arrow_item(&self) -> arrow_schema::Field {
+        match self {
+            LType::List(f, _) | LType::FixedList(f, _) => f.arrow(),
+            _ => panic!("not a list type"),
+        }
+    }
 }
 
 fn leaves_of_fields(fields: &[LField]) -> Vec<LType> {
@@ -253,23 +283,29 @@ struct FileFacts {
 
 fn file_facts(meta: &ParquetMetaData) -> FileFacts {
     let mut ff = FileFacts { row_groups: vec![], multi_page: false, fallback: false, dict_pages: false };
-    for rg in meta.row_groups() {
+    for (rgi, rg) in meta.row_groups().iter().enumerate() {
         ff.row_groups.push(rg.num_rows() as usize);
-        for col in rg.columns() {
-            if let Some(st) = col.page_encoding_stats() {
-                let data: Vec<_> = st.iter().filter(|s| matches!(s.page_type, PageType::DATA_PAGE | PageType::DATA_PAGE_V2)).collect();
-                let pages: i32 = data.iter().map(|s| s.count).sum();
-                if pages >= 2 {
+        for (ci, col) in rg.columns().iter().enumerate() {
+            if let Some(locs) = meta.page_index().and_then(|p| p.page_locations(rgi, ci)) {
+                if locs.len() >= 2 {
                     ff.multi_page = true;
                 }
-                let dict = data.iter().any(|s| matches!(s.encoding, Encoding::RLE_DICTIONARY | Encoding::PLAIN_DICTIONARY));
-                let other = data.iter().any(|s| !matches!(s.encoding, Encoding::RLE_DICTIONARY | Encoding::PLAIN_DICTIONARY));
-                if dict {
-                    ff.dict_pages = true;
-                }
-                if dict && other {
-                    ff.fallback = true;
-                }
+            }
+            // encodings of the data pages only (full statistics or the mask this crate distils them to)
+            let data_encodings: Vec<Encoding> = if let Some(st) = col.page_encoding_stats() {
+                st.iter().filter(|s| matches!(s.page_type, PageType::DATA_PAGE | PageType::DATA_PAGE_V2)).map(|s| s.encoding).collect()
+            } else if let Some(m) = col.page_encoding_stats_mask() {
+                m.encodings().collect()
+            } else {
+                vec![]
+            };
+            let dict = data_encodings.iter().any(|e| matches!(e, Encoding::RLE_DICTIONARY | Encoding::PLAIN_DICTIONARY));
+            let other = data_encodings.iter().any(|e| !matches!(e, Encoding::RLE_DICTIONARY | Encoding::PLAIN_DICTIONARY));
+            if dict {
+                ff.dict_pages = true;
+            }
+            if dict && other {
+                ff.fallback = true;
             }
         }
     }
@@ -350,6 +386,23 @@ fn label_case(c: &mut Case, d: &CaseData, facts: &PropFacts, ff: &FileFacts) {
     }
 }
 
+/// content-defined chunking over a list-view column hits the reported finding C05-cdc-listview
+/// (`ArrayLevels::slice_for_chunk` assumes ascending non-null indices): CDC is kept off for such schemas unless replaying
+fn prop_opts(c: &mut Case, d: &CaseData) -> PropOpts {
+    let listview = d.fields.iter().any(|f| f.ty.any(&|x| matches!(x, LType::List(_, ListEnc::V32 | ListEnc::V64))));
+    // ... and the explicit page break CDC inserts after a chunk can hit a Boolean column whose RLE value encoder has
+    // not seen a value since the last page: `RleValueEncoder::flush_buffer` panics (finding C05-cdc-bool-rle-empty-page)
+    let boolean = d.fields.iter().any(|f| f.ty.any(&|x| matches!(x, LType::Bool)));
+    let no_cdc = (listview || boolean) && !c.strict;
+    if listview && !c.strict {
+        c.exclude("C05-cdc-listview");
+    }
+    if boolean && !c.strict {
+        c.exclude("C05-cdc-bool-rle-empty-page");
+    }
+    PropOpts { stats_focus: false, rows: d.total, no_cdc }
+}
+
 fn gen_read_bs(t: &mut Tape, total: usize) -> usize {
     let bs = *t.pick(&[1024usize, 1, 3, 64, 0]);
     let bs = if bs == 0 { total + 5 } else { bs };
@@ -361,7 +414,8 @@ fn sub_roundtrip(c: &mut Case) -> CaseResult {
     let descr = parquet_schema(&d.schema)?;
     let leaves = leaves_of_fields(&d.fields);
     ensure!(leaves.len() == descr.num_columns(), "harness:leaves", "leaf walk {} != parquet columns {}", leaves.len(), descr.num_columns());
-    let (props, facts, pdesc) = gen_props(&mut c.tape, &descr, &leaves, &PropOpts { stats_focus: false, rows: d.total });
+    let po = prop_opts(c, &d);
+    let (props, facts, pdesc) = gen_props(&mut c.tape, &descr, &leaves, &po);
     let read_bs = gen_read_bs(&mut c.tape, d.total);
     c.describe(describe_case(&d, &pdesc, read_bs));
 
@@ -531,8 +585,10 @@ fn sub_parallel(c: &mut Case) -> CaseResult {
     let d = gen_case(c, 3, false);
     let descr = parquet_schema(&d.schema)?;
     let leaves = leaves_of_fields(&d.fields);
-    let (props, facts, pdesc) = gen_props(&mut c.tape, &descr, &leaves, &PropOpts { stats_focus: false, rows: d.total });
+    let po = prop_opts(c, &d);
+    let (props, facts, pdesc) = gen_props(&mut c.tape, &descr, &leaves, &po);
     let read_bs = gen_read_bs(&mut c.tape, d.total);
+    c.describe(describe_case(&d, &pdesc, read_bs));
     let (sbytes, smeta) = write_serial(&d.schema, &d.batches, &d.flush_after, props.clone())?;
     let rg_rows: Vec<usize> = smeta.row_groups().iter().map(|r| r.num_rows() as usize).collect();
     let (pbytes, pmeta, sched) = write_parallel(&mut c.tape, &d.schema, &d.batches, &rg_rows, props)?;
@@ -577,7 +633,7 @@ fn all_leaves() -> Vec<LType> {
         v.push(Int { bits, signed: false });
     }
     v.extend([F16, F32, F64]);
-    for (width, ps) in [(32u16, vec![(9u8, 2i8), (4, 0)]), (64, vec![(18, 3), (9, 9), (10, 0)]), (128, vec![(38, 10), (9, 0), (18, 2), (19, 0)]), (256, vec![(76, 5), (9, 1), (18, 0), (39, 0), (30, 0)])] {
+    for (width, ps) in [(32u16, vec![(9u8, 2i8), (4, 0), (1, 0)]), (64, vec![(18, 3), (9, 9), (10, 0)]), (128, vec![(38, 10), (9, 0), (18, 2), (19, 0), (1, 1), (5, -2)]), (256, vec![(76, 5), (9, 1), (18, 0), (39, 0), (30, 0)])] {
         for (p, s) in ps {
             v.push(Decimal { width, p, s });
         }
@@ -733,6 +789,90 @@ fn sub_grid(c: &mut Case) -> CaseResult {
     Ok(())
 }
 
+// ------------------------------------------------------------------------------------------------
+// minimal reproductions of the reported findings (judged only in replay / known-finding mode)
+
+const N_REPRO: u64 = 8;
+
+fn sub_repro(c: &mut Case) -> CaseResult {
+    use LType::*;
+    let i = c.index;
+    if !c.strict {
+        c.class("repro:skipped(not replaying)");
+        return Ok(());
+    }
+    let int = |v: i128| LValue::Int(v);
+    let i32t = Int { bits: 32, signed: true };
+    let b = WriterProperties::builder();
+    let cdc = parquet::file::properties::CdcOptions { min_chunk_size: 16, max_chunk_size: 80, norm_level: 0 };
+    let (key, field, rows, props, lay): (&str, LField, Vec<LValue>, WriterProperties, Lay) = match i {
+        0 => ("C05-dict-flba-unreadable", LField::new("c0", Dict { kbits: 32, ksigned: true, value: Box::new(Decimal { width: 128, p: 38, s: 0 }) }, true), vec![int(1), LValue::Null, int(-2)], b.build(), Lay::plain()),
+        1 => ("C05-dict-view-writer-panic", LField::new("c0", Dict { kbits: 32, ksigned: true, value: Box::new(Utf8(Enc::View)) }, true), vec![LValue::Str("a".into()), LValue::Null], b.build(), Lay::plain()),
+        2 => ("C05-dict-fsb-unreadable", LField::new("c0", Dict { kbits: 32, ksigned: true, value: Box::new(FixedBinary(4)) }, true), vec![LValue::Bytes(vec![1, 2, 3, 4]), LValue::Null, LValue::Bytes(vec![5, 6, 7, 8])], b.set_dictionary_enabled(false).build(), Lay::plain()),
+        3 => (
+            "C05-nested-ree-type-lost",
+            LField::new("c0", Struct(vec![LField::new("r", Ree { rbits: 32, value: Box::new(LField::new("values", Duration(Unit::S), true)) }, true)]), true),
+            vec![LValue::Struct(vec![int(5)]), LValue::Struct(vec![int(5)]), LValue::Struct(vec![int(7)])],
+            b.build(),
+            Lay::plain(),
+        ),
+        4 => ("C05-decimal32-precision1", LField::new("c0", Decimal { width: 32, p: 1, s: 0 }, true), vec![int(7), LValue::Null, int(-9)], b.build(), Lay::plain()),
+        5 => {
+            // list view with descending child ranges, CDC on (the batch is built by hand below)
+            let rows: Vec<LValue> = (0..40).map(|k| LValue::List(vec![int((39 - k) * 2), int((39 - k) * 2 + 1)])).collect();
+            ("C05-cdc-listview", LField::new("c0", List(Box::new(LField::new("item", i32t.clone(), true)), ListEnc::V32), true), rows, b.set_content_defined_chunking(Some(cdc)).build(), Lay::fancy())
+        }
+        6 => {
+            let rows: Vec<LValue> = (0..400).map(|k| LValue::Bool(k % 3 == 0)).collect();
+            (
+                "C05-cdc-bool-rle-empty-page",
+                LField::new("c0", Bool, false),
+                rows,
+                b.set_writer_version(parquet::file::properties::WriterVersion::PARQUET_2_0).set_content_defined_chunking(Some(cdc)).set_data_page_row_count_limit(1).set_write_batch_size(1).build(),
+                Lay::plain(),
+            )
+        }
+        _ => (
+            "C05-reader-unmasked-nulls",
+            LField::new("c0", Struct(vec![LField::new("a", FixedList(Box::new(LField::new("item", i32t.clone(), false)), 2), false)]), true),
+            vec![LValue::Struct(vec![LValue::List(vec![int(1), int(2)])]), LValue::Null, LValue::Struct(vec![LValue::List(vec![int(3), int(4)])])],
+            b.build(),
+            Lay::plain(),
+        ),
+    };
+    let fields = vec![field];
+    let schema = schema_of(&fields, None);
+    let n = rows.len();
+    let lb: LBatch = vec![rows];
+    // the list-view reproduction needs a permuted child: try a few layouts from the (fixed) tape
+    let _ = c.tape.u64();
+    let attempts = 1;
+    c.describe(json!({"finding": key, "type": fields[0].ty.arrow().to_string(), "rows": n}));
+    for _ in 0..attempts {
+        let batch = if i == 5 {
+            let child: ArrayRef = std::sync::Arc::new(arrow_array::Int32Array::from_iter_values(0..80));
+            let offs: Vec<i32> = (0..40).map(|k| (39 - k) * 2).collect();
+            let lv = arrow_array::ListViewArray::try_new(std::sync::Arc::new(fields[0].ty.arrow_item()), offs.into(), vec![2i32; 40].into(), child, None).unwrap();
+            RecordBatch::try_new(schema.clone(), vec![std::sync::Arc::new(lv) as ArrayRef]).unwrap()
+        } else {
+            realise_batch(&mut c.tape, &schema, &fields, &lb, n, &lay)
+        };
+        let d = CaseData { fields: fields.clone(), schema: schema.clone(), lbatches: vec![lb.clone()], batches: vec![batch], flush_after: vec![false], total: n };
+        let r = (|| -> CaseResult {
+            let (bytes, _) = write_serial(&d.schema, &d.batches, &d.flush_after, props.clone())?;
+            let rb = read_all(&bytes, 1024)?;
+            check_schema(&d.fields, &rb.schema, "read")?;
+            let got = decoded_rows(&d.fields, &rb, "read")?;
+            compare_rows(&d.fields, &expected_rows(&d), &got, "read")
+        })();
+        if let Err(f) = r {
+            return Err(Fail::new(key, format!("[{}] {}", f.sig, f.msg)));
+        }
+    }
+    c.class("repro:not_reproduced");
+    Ok(())
+}
+
 fn main() {
     let n = grid_cases();
     Check::new(
@@ -744,8 +884,9 @@ fn main() {
     .assume("decimal values within the declared precision; dictionary arrays without null dictionary values (Lay::fancy)")
     .assume("explicit encodings only from the per-physical-type legal set of grids/parquet_arrow_writer.json; setters documenting a panic on 0 get >= 1; CDC options satisfy the documented panics and the mask-width constraint")
     .assume("run-end encoded columns are documented to come back as their value type; everything else must come back with the identical Arrow type")
-    .sub(Sub::new("roundtrip", 900, 30000, sub_roundtrip).tape(256, 12000).require(&["nested", "has:dictionary", "has:runend", "row_groups>=2", "pages>=2", "dict_fallback", "version:2", "cdc", "rows:tail", "rows:0", "null_below_top"]))
-    .sub(Sub::new("parallel", 150, 4000, sub_parallel).tape(256, 6000).require(&["leaves>=2", "row_groups>=2"]))
+    .sub(Sub::new("roundtrip", 3000, 60000, sub_roundtrip).tape(256, 12000).require(&["nested", "has:dictionary", "has:runend", "row_groups>=2", "pages>=2", "dict_fallback", "version:2", "cdc", "rows:tail", "rows:0", "null_below_top"]))
+    .sub(Sub::new("parallel", 500, 8000, sub_parallel).tape(256, 6000).require(&["leaves>=2", "row_groups>=2"]))
     .sub(Sub::new("grid", 0, 0, sub_grid).enumerate(n, n).require(&["inside_grid", "outside_grid"]))
+    .sub(Sub::new("repro", 0, 0, sub_repro).enumerate(N_REPRO, N_REPRO))
     .run()
 }
